@@ -55,6 +55,9 @@ type tcase struct {
 	BaseN int    `json:"base_n,omitempty"`
 	ML    bool   `json:"ml,omitempty"`  // the chain is written on a new line (`recv` newline `|@(arg)f`)
 	Cls   string `json:"cls,omitempty"` // "" = elements are E (r/comb are props of the prototype), "EM" = resolved through the prototype's _missing
+	// Kind "fixed": a program with a stated result (Src / Want)
+	Src  string `json:"src,omitempty"`
+	Want string `json:"want,omitempty"`
 	// Kind "again": the chain (kind Base) is written once inside a function and evaluated for each receiver of Seq in turn
 	Base string  `json:"base,omitempty"`
 	Seq  [][]int `json:"seq,omitempty"`
@@ -103,6 +106,35 @@ func againModel(t tcase) outcome {
 		}
 	}
 	return outcome{out: out.String(), val: "[" + strings.Join(parts, ", ") + "]"}
+}
+
+// genFixed: elements that are siblings (one prototype) with their own property of the called name - a method of
+// their own, a plain value, nothing (inherited) - in every order of three; and elements that own _literalProxy
+// (Either values) under a variable call.
+func genFixed(emit func(tcase)) {
+	pre := "P := {speak: m{\"p\"}}\na := P.bear({speak: m{\"a\"}})\nb := P.bear({speak: m{\"b\"}})\nc := P.bear({})\nd := P.bear({speak: \"data\"})\n"
+	res := map[string]string{"a": `"a"`, "b": `"b"`, "c": `"p"`, "d": `"data"`}
+	names := []string{"a", "b", "c", "d"}
+	for _, x := range names {
+		for _, y := range names {
+			for _, z := range names {
+				if x == y || y == z || x == z {
+					continue
+				}
+				for _, add := range adds {
+					emit(tcase{Kind: "fixed", Main: "@", Add: add, Form: "property", Src: pre + "[" + x + ", " + y + ", " + z + "]" + add + "@speak", Want: "[" + res[x] + ", " + res[y] + ", " + res[z] + "]"})
+				}
+			}
+		}
+	}
+	epre := "es := [1.try, 2.try./(0), 3.try]\ninc := {|x| x + 2}\n"
+	ewant := `[{"_value": 3}, {"_error": [ZeroDivisionErr: cannot be divided by 0]}, {"_value": 5}]`
+	for _, add := range adds {
+		emit(tcase{Kind: "fixed", Main: "@", Add: add, Form: "literal", Src: epre + "es" + add + "@{|x| x + 2}", Want: ewant})
+		emit(tcase{Kind: "fixed", Main: "@", Add: add, Form: "variable", Src: epre + "es" + add + "@^inc", Want: ewant})
+	}
+	emit(tcase{Kind: "fixed", Main: "$", Form: "variable", Src: epre + "add := {|acc, e| acc + [e.val]}\nes$([])^add", Want: "[1, nil, 3]"})
+	emit(tcase{Kind: "fixed", Main: "$", Form: "literal", Src: epre + "es$([]){|acc, e| acc + [e.val]}", Want: "[1, nil, 3]"})
 }
 
 func genAgain(emit func(tcase)) {
@@ -297,6 +329,9 @@ func (t tcase) src() string {
 	}
 	if t.Kind == "again" {
 		return againSrc(t)
+	}
+	if t.Kind == "fixed" {
+		return t.Src
 	}
 	if t.Kind == "reuse" {
 		return "rv := " + t.Recv + "\ng := {|e| e}\n[rv" + t.Add + "@{|e| e}, rv@^g, rv" + t.Add2 + "@{|e| e}, rv$([]){|a, e| a + [e]}, rv" + t.Add + "@^g]"
@@ -525,6 +560,7 @@ func gen(thorough bool, emit func(tcase)) {
 	genRest(emit)
 	// one chain expression (one syntax node, inside a function) evaluated for three receivers in turn
 	genAgain(emit)
+	genFixed(emit)
 	// two chains with the same array as chain argument: every (context, form) pair x base length 0..8 x 1..2 results
 	for _, a1 := range adds {
 		for _, a2 := range adds {
@@ -755,6 +791,8 @@ func judge(c *core.Ctx, t tcase, o panrun.Obs) {
 		want = histModel(t)
 	case "again":
 		want = againModel(t)
+	case "fixed":
+		want = outcome{val: t.Want}
 	case "reuse":
 		// the same receiver value serves five chains one after the other: each sees all its elements
 		r := otherRecvs[recvIndex(t.Recv)]
@@ -775,7 +813,7 @@ func judge(c *core.Ctx, t tcase, o panrun.Obs) {
 	}
 	c.Outcome(t.Kind + ":" + o.Kind)
 	ok := true
-	if t.Kind != "other" && t.Kind != "digest" && t.Kind != "reuse" {
+	if t.Kind != "other" && t.Kind != "digest" && t.Kind != "reuse" && t.Kind != "fixed" {
 		ok = o.Out == want.out
 	}
 	if ok {
@@ -821,7 +859,7 @@ func groupKey(t tcase) string {
 }
 
 func crossForm(c *core.Ctx, t tcase, o panrun.Obs) {
-	if t.Kind == "digest" || t.Kind == "hist" || t.Kind == "reuse" || t.Kind == "again" || (t.Kind == "reduce" && t.Add == "&") {
+	if t.Kind == "digest" || t.Kind == "hist" || t.Kind == "reuse" || t.Kind == "again" || t.Kind == "fixed" || (t.Kind == "reduce" && t.Add == "&") {
 		return
 	}
 	k := groupKey(t)
